@@ -58,3 +58,9 @@ add('C11', 'property-based testing over an adversarial line alphabet (Hypothesis
     'blanks unsigned, final line ending unsigned) + verifier accept PGPy\'s signatures; PGPy verifies reference-made cleartext messages and returns their text.',
     'Trusted: refpgp.armor section 7 implementation, refpgp.sig. Lone-CR texts only take part in the round-trip clause; a lone CR at the very end of the text is not compared.',
     'DESIGN.md 4/C11')
+add('C17', 'complete enumeration: all 2^11 issue-flag values (algebraic oracle) and the full scenario product through PGPKey.verify against a two-line model (truthy <=> key not expired and every signature correct), plus weak/strong metamorphic pairs',
+    'The flag algebra (disqualifying set, monotonicity, good/bad partition, truthiness) is checked on all 2048 values; 6 keys (weak/strong per family) x expired x revoked x 3 hashes x '
+    '5 subject kinds x each wrong-signature position are verified through the public API with reference-made certificates and signatures; the verdict must follow the model and the '
+    'returned object must list every examined signature exactly once.',
+    'Trusted: refpgp signer for building scenarios. Expiry is the only disqualifier reachable through the API; subkey-issued signatures under an expired primary are not asserted.',
+    'DESIGN.md 4/C17')
